@@ -12,7 +12,11 @@
 #ifndef U
 #define U 2
 #endif
+#ifdef __CPROVER__
+#define VP_MAXBLK 18
+#else
 #define VP_MAXBLK (2 * K + 4)
+#endif
 #define vp_ctor vp_unitdecl_ctor
 #define vp_ctor_default vp_unitdecl_ctor_default
 #define vp_copy vp_unitdecl_copy
@@ -34,10 +38,51 @@
 #undef vp_alloc
 #undef vp_free
 #undef vp_dealloc
-#ifdef VP_NATIVE
 #define VP_NO_REAL_FREE      /* native runs without ASan: malloc would reuse a released address and the block registry (keyed by address) would see a stale entry */
+#ifdef __CPROVER__
+/* Under CBMC the blocks are TYPED pre-declared objects chosen by (phase, allocation number within the phase), registered in the block
+ * registry of vp_track.h at a fixed slot (a malloc'ed byte block holding chain pointers costs a byte_update per access: 8 GB for K=2;
+ * a running block counter turns symbolic at the first merge).  vp_track.h's own allocate is renamed away, its release side is used as is. */
+#define vp_alloc vp_track_alloc_unused
 #endif
 #include "vp_track.h"
+#ifdef __CPROVER__
+#undef vp_alloc
+#endif
+typedef struct S_struct_frg__hash_map_unsigned_long__tracked__vp_hash_functor__vp_allocator___chain chain;
+#ifdef __CPROVER__
+#if K > 5
+#error "typed block pool: K <= 5 under CBMC"
+#endif
+#define NPH 6
+chain nA0, nA1, nA2, nA3, nA4, nA5, nB0, POISON;         /* phase p: first node nAp; the initializer-list constructor (phase 0) allocates a second node nB0 */
+chain *tb0[10], *tb1[10], *tb2[10], *tb3[10], *tb4[10], *tb5[10];
+static chain *const NA[NPH] = {&nA0, &nA1, &nA2, &nA3, &nA4, &nA5};
+static chain **const TB[NPH] = {tb0, tb1, tb2, tb3, tb4, tb5};
+int phase, ph_nodes, ph_tabs;                           /* phase = 0 constructor, s+1 = operation s (concrete after loop unrolling) */
+static void new_phase(int p) { phase = p; ph_nodes = 0; ph_tabs = 0; }
+static void reg(int slot, void *p, size_t size) { vp_blks[slot].p = (char *)p; vp_blks[slot].size = size; vp_blks[slot].live = 1; vp_outstanding++; }   /* slot is a constant at every call */
+void *vp_alloc(size_t size) {
+	if(size == sizeof(chain)) {
+		VP_ASSERT(ph_nodes < (phase == 0 ? 2 : 1), "allocator: more chain nodes allocated by one operation than entries it creates");
+		__CPROVER_assume(ph_nodes < (phase == 0 ? 2 : 1));
+		chain *n;
+		if(ph_nodes == 0) { n = NA[phase]; reg(3 * phase, n, size); } else { n = &nB0; reg(1, n, size); }
+		ph_nodes++;
+		n->f0.f0.f1.f0.f1 = VP_RAW; n->f1 = &POISON;
+		return n;
+	}
+	VP_ASSERT(size == 80, "allocator: table size other than 10 chain pointers inside this bound");
+	__CPROVER_assume(size == 80);
+	VP_ASSERT(ph_tabs == 0, "allocator: more than one table allocated by one operation");
+	__CPROVER_assume(ph_tabs == 0);
+	chain **t = TB[phase]; for(int b = 0; b < 10; b++) t[b] = &POISON;
+	ph_tabs++; reg(3 * phase + 2, t, size);
+	return t;
+}
+#else
+#define new_phase(p) ((void)0)
+#endif
 typedef struct S_class_frg__hash_map map_t;
 typedef struct S_struct_tracked trk;
 typedef struct S_class_frg__hash_map_unsigned_long__tracked__vp_hash_functor__vp_allocator___iterator iter_t;
@@ -76,6 +121,10 @@ void harness(void) {
 	int c, a, b, va, vb; VP_INPUT(c); VP_INPUT(a); VP_INPUT(b); VP_INPUT(va); VP_INPUT(vb);
 	VP_NATIVE_ONLY(if(getenv("VP_RANDOM")) { c = (unsigned)c % 2; a = (unsigned)a % U; b = (unsigned)b % U; if(U < 2 || a == b) c = 0; })
 	VP_ASSUME(c >= 0 && c <= 1 && a >= 0 && a < U && b >= 0 && b < U);
+#ifdef __CPROVER__
+	vp_nblk = VP_MAXBLK;
+#endif
+	new_phase(0);
 	if(c == 0) ht_ctor(&map);
 	else {
 		VP_ASSUME(a != b);
@@ -87,6 +136,7 @@ void harness(void) {
 		int op, ki, v; VP_INPUT(op); VP_INPUT(ki); VP_INPUT(v);
 		VP_NATIVE_ONLY(if(getenv("VP_RANDOM")) { op = (unsigned)op % 6; ki = (unsigned)ki % U; })
 		VP_ASSUME(op >= 0 && op <= 5 && ki >= 0 && ki < U);
+		new_phase(step + 1);
 		uint64_t k = keyat(ki); int pres = 0; int32_t rv = 0;
 		for(int u = 0; u < U; u++) if(u == ki) { pres = present[u]; rv = rval[u]; }
 		switch(op) {
